@@ -16,7 +16,7 @@ import itertools
 
 from .domains import AbsStr, AbsMatch, AbsSeq, Cond, install_rx_hooks, _freeze, AbsInt
 from .interp import (AbstractValue, Interp, Oracle, Obj, Unknown, enumerate_paths, Raised, is_abstract,
-                     LoopTruncated, InterpError, MISSING, BoundMethod, RxVal, PathLimit)
+                     LoopTruncated, InterpError, MISSING, BoundMethod, RxVal, PathLimit, stdlib_unescape)
 from .model import AnalysisError, ClassInfo, FuncInfo, walk_function, PKG
 from . import rx as rxmod
 
@@ -328,7 +328,7 @@ def _install_common_hooks(model, it, facts, log):
     it.func_hooks[bt.qualname] = lambda interp, fi, args, kwargs: Children('block', args[0] if args else None)
     it.intrinsics['html.unescape'] = lambda interp, args, kwargs: (
         AbsStr(prov=('unescape', args[0].prov)) if isinstance(args[0], AbsStr) else
-        __import__('html').unescape(args[0]) if isinstance(args[0], str) else Unknown('unescape'))
+        stdlib_unescape(interp, args[0]) if isinstance(args[0], str) else Unknown('unescape'))
     it.intrinsics['builtins.int'] = lambda interp, args, kwargs: (
         AbsInt(('int', _freeze(args[0]))) if args and is_abstract(args[0]) else int(*args))
     # len of abstract -> AbsInt
